@@ -405,6 +405,8 @@ def analyse(info, prims):
         if b.get("rc") not in (0, None):
             at = xs[min(len(ev), len(xs) - 1)] if xs else (0, "", "")
             res["oracle"].append({"property": prop_of_op(at[1]), "message": f"compiled program ({name}) terminated abnormally (rc={b.get('rc')}) at operation `{at[1]}`", "line": at[0], "build": name})
+            if b.get("rc") in (-11, -7, -4, 139, 135, 132):
+                res["oracle"].append({"property": "C07", "message": f"compiled program ({name}) died of a memory fault (signal {abs(b.get('rc')) if b.get('rc') < 0 else b.get('rc') - 128}) at operation `{at[1]}`: an access that is out of bounds, on storage the record does not own, or alignment-requiring on misaligned storage", "line": at[0], "build": name})
     for (i, r, m) in xs[5:8]:
         res["samples"].append({"request": r, "model": m})
     return res, req
